@@ -465,3 +465,216 @@ func init() {
 		Witnesses: []string{"match", "nomatch", "end"},
 	})
 }
+
+func init() {
+	register(&propSpec{
+		ID: "C04",
+		Build: func(tier string, seed int) []Unit {
+			ps := dedup(append(patterns.ShapePats(), enumPats(tier, seed)...))
+			maxN := 4
+			if tier == "thorough" {
+				maxN = 5
+			}
+			var us []Unit
+			for i, p := range ps {
+				for k, cfg := range []struct {
+					o  int
+					co string
+				}{{0, ""}, {0, "g"}, {patterns.OptRTL, ""}, {patterns.OptI, ""}, {patterns.OptI, "g"}} {
+					if tier != "thorough" && k > 0 && (i+seed)%4 != k-1 {
+						continue
+					}
+					us = append(us, unitsFor("C04", "facts", p, cfg.o, cfg.co, maxN, nil, false)...)
+				}
+			}
+			return us
+		},
+		Rule:      "For each (pattern, options, code-gen flag, n): n symbolic runes; the compiled program is attempted at every position p (single-position attempt, no scanning); on every feasible path with a match at p every published fact (MinRequiredLength as remaining-length bound, MaxPossibleLength, leading/trailing anchor, LeadingPrefix(es), FixedDistanceSets/Char/String, LiteralAfterLoop, landmark chain as a necessary condition, FcPrefix, BmPrefix, Anchors bits) is asserted at p.",
+		Witnesses: []string{"match", "end", "fact:FcPrefix", "fact:FixedDistanceSets", "fact:LeadingPrefix"},
+	})
+}
+
+// ---------------------------------------------------------------- C17
+
+type grpKind struct {
+	open string // text after '('
+	name string // "" unnamed, else name or number
+}
+
+// groupPatterns enumerates patterns mixing unnamed, named, explicitly numbered and duplicate-named groups.
+func groupPatterns(tier string) []string {
+	kinds := []grpKind{{"", ""}, {"?<x>", "x"}, {"?<y>", "y"}, {"?<3>", "3"}, {"?<7>", "7"}, {"?<x1>", "x1"}, {"?'q'", "q"}}
+	bodies := []string{"a", "b", "c", "[ab]"}
+	var out []string
+	seen := map[string]bool{}
+	add := func(s string) {
+		if !seen[s] {
+			seen[s] = true
+			out = append(out, s)
+		}
+	}
+	g := func(k grpKind, body string) string { return "(" + k.open + body + ")" }
+	for i, k1 := range kinds {
+		add(g(k1, "a"))
+		for j, k2 := range kinds {
+			b1, b2 := bodies[i%4], bodies[(j+1)%4]
+			add(g(k1, b1) + g(k2, b2))
+			add(g(k1, b1) + "|" + g(k2, b2))
+			add(g(k1, b1+g(k2, b2)))
+			add(g(k1, b1) + "?" + g(k2, b2))
+			if tier == "thorough" {
+				for l, k3 := range kinds {
+					b3 := bodies[(l+2)%4]
+					add(g(k1, b1) + g(k2, b2) + g(k3, b3))
+					add(g(k1, b1+g(k2, b2)) + g(k3, b3))
+					add(g(k1, b1) + "|" + g(k2, b2) + g(k3, b3))
+				}
+			} else if (i+j)%2 == 0 {
+				k3 := kinds[(i+j+1)%len(kinds)]
+				add(g(k1, b1) + g(k2, b2) + g(k3, "c"))
+				add(g(k1, b1+g(k2, b2)) + g(k3, "c"))
+			}
+		}
+	}
+	return out
+}
+
+// expectedGroups computes the documented numbering from the independent parse.
+// order=true: MaintainCaptureOrder (pure pattern order).
+func expectedGroups(text string, options int, order bool) (nums []int, names []string, firstNamed string, firstNamedNum int, ok bool) {
+	ast, _, err := patterns.Parse(text, options)
+	if err != nil {
+		return nil, nil, "", 0, false
+	}
+	type g struct {
+		num  int
+		name string
+	}
+	var gs []g
+	seen := map[int]bool{}
+	if order {
+		// renumber in order of opening parenthesis; duplicate names share a slot
+		next := 1
+		byName := map[string]int{}
+		ast.Walk(func(n *patterns.Node) {
+			if n.K != patterns.Cap {
+				return
+			}
+			if n.Name == "" {
+				n.G = next
+				next++
+			} else if v, ok := byName[n.Name]; ok {
+				n.G = v
+			} else {
+				n.G = next
+				byName[n.Name] = next
+				next++
+			}
+		})
+	}
+	ast.Walk(func(n *patterns.Node) {
+		if n.K == patterns.Cap && !seen[n.G] {
+			seen[n.G] = true
+			name := n.Name
+			if name == "" {
+				name = itoa(n.G)
+			}
+			gs = append(gs, g{n.G, name})
+			if n.Name != "" && firstNamed == "" {
+				if _, err := strconv.Atoi(n.Name); err != nil {
+					firstNamed, firstNamedNum = n.Name, n.G
+				}
+			}
+		}
+	})
+	sort.Slice(gs, func(i, j int) bool { return gs[i].num < gs[j].num })
+	nums, names = []int{0}, []string{"0"}
+	for _, x := range gs {
+		nums = append(nums, x.num)
+		names = append(names, x.name)
+	}
+	return nums, names, firstNamed, firstNamedNum, true
+}
+
+func joinInts(xs []int) string {
+	s := ""
+	for i, x := range xs {
+		if i > 0 {
+			s += ","
+		}
+		s += itoa(x)
+	}
+	return s
+}
+
+func joinStrs(xs []string) string {
+	s := ""
+	for i, x := range xs {
+		if i > 0 {
+			s += ","
+		}
+		s += x
+	}
+	return s
+}
+
+func init() {
+	register(&propSpec{
+		ID: "C17",
+		Build: func(tier string, seed int) []Unit {
+			maxN := 2
+			if tier == "thorough" {
+				maxN = 3
+			}
+			var us []Unit
+			for i, p := range groupPatterns(tier) {
+				for k, cfg := range []struct {
+					o  int
+					co string
+				}{{0, ""}, {0, "o"}, {patterns.OptRE2, ""}, {patterns.OptN, ""}, {patterns.OptE, ""}} {
+					if tier != "thorough" && k > 0 && (i+seed)%4 != k-1 {
+						continue
+					}
+					order := cfg.co == "o" || cfg.o&patterns.OptE != 0
+					if order && (containsDigitName(p)) {
+						continue // explicit numbers under MaintainCaptureOrder: undocumented interaction, not generated
+					}
+					nums, names, fn, fnum, ok := expectedGroups(p, cfg.o, order)
+					if !ok {
+						continue
+					}
+					if cfg.o&patterns.OptE != 0 {
+						// documented: in ECMAScript mode unnamed groups have no name
+						for i, nm := range names {
+							if nm == itoa(nums[i]) {
+								names[i] = ""
+							}
+						}
+					}
+					extra := map[string]string{"nums": joinInts(nums), "names": joinStrs(names)}
+					if fn != "" {
+						extra["pattern_byname"] = "(?:" + p + `)\k<` + fn + `>`
+						extra["pattern_bynumber"] = "(?:" + p + `)\` + itoa(fnum)
+						if fnum > 9 {
+							delete(extra, "pattern_byname")
+							delete(extra, "pattern_bynumber")
+						}
+					}
+					us = append(us, unitsFor("C17", "groups", patterns.Pat{Text: p}, cfg.o, cfg.co, maxN, extra, false)...)
+				}
+			}
+			return us
+		},
+		Rule:      "For each (group-mix pattern, mode in {default, MaintainCaptureOrder, RE2, ExplicitCapture, ECMAScript}, n): the expected numbering is computed from an independent parse by the documented rule; GetGroupNumbers/Names, both look-ups and unknown look-ups are asserted (concrete); with n symbolic runes, on every feasible path the order and names of Match.Groups, GroupByName/Number, and equality of the pattern followed by \\k<name> vs \\<number> are asserted.",
+		Witnesses: []string{"match", "nomatch", "backref-leg", "end"},
+	})
+}
+
+func containsDigitName(p string) bool {
+	for i := 0; i+2 < len(p); i++ {
+		if p[i] == '?' && p[i+1] == '<' && p[i+2] >= '0' && p[i+2] <= '9' {
+			return true
+		}
+	}
+	return false
+}
